@@ -22,6 +22,17 @@ pub fn programs09() -> Vec<Prog> {
     p.push(Some("end"), Stmt::Named(0x25, "halt"));
     p.push(Some("patch"), Stmt::Fill(Lit::hex(0x16E7)));
     v.push(Prog::new("self-modifying", p, true));
+    // a HALT word in the image that the program replaces by an ordinary instruction before
+    // control reaches it
+    let mut p = Program::default();
+    p.push(Some("first"), Stmt::Mem(PcRel::Ld, 0, lbl("patch")));
+    p.push(None, Stmt::Mem(PcRel::St, 0, lbl("slot")));
+    p.push(None, Stmt::Add(1, 1, Src2::Imm(Lit::dec(1))));
+    p.push(Some("slot"), Stmt::Named(0x25, "halt"));
+    p.push(Some("loop"), Stmt::Add(1, 1, Src2::Imm(Lit::dec(1))));
+    p.push(Some("end"), Stmt::Named(0x25, "halt"));
+    p.push(Some("patch"), Stmt::Fill(Lit::hex(0x1261)));
+    v.push(Prog::new("overwrites-placeholder-halt", p, true));
     // .break directives in the source
     let mut p = Program::default();
     p.items.push(Item::Break);
@@ -262,7 +273,7 @@ pub fn run(ctx: &Ctx) -> i32 {
         ctx,
         acc,
         Level { category: "model_checking", bfs: Some((stats.states, stats.transitions, stats.transitions * if thorough { 4 } else { 3 }, stats.max_depth)) },
-        "explicit-state BFS over histories of non-mutating commands (step, step into {1,3}, step out, continue, break add/remove absolute and ^1, break list, print register / ^ / xFFFF, registers, assembly, echo, help) on 14 programs (loop, leaving user space through a bare RET / a branch below the origin / a jump to xFFFF, branches, nested JSR/RET, recursive CALL/RETS, HALT in the middle, JSRR + self-branch, self-modifying with output, `.break` in the source with output, running off the end, ending in an exception, executing an unknown trap). Every transition runs history+`quit` and history+end-of-input (also in non-minimal mode: up to depth 3 in the quick tier, everywhere in the thorough tier) on the real debugger and compares how the run ends, the final registers/PC/CC/all memory and the program output with the same image run without a debugger; states deduplicated on the paused product digest. Plus every history up to depth 3 (quick: last level stride 6) through the real binary: exit status and stdout of `lace debug --minimal --command` vs `lace run --minimal`. Plus long executions through the real binary (5 scripts on a subroutine with 65 536 unpaired calls; thorough: 2 scripts on a program of 2^32 + 229 381 instructions), which drive the debugger's own counters past their widths. non-trivial = agreeing transitions / CLI histories",
+        "explicit-state BFS over histories of non-mutating commands (step, step into {1,3}, step out, continue, break add/remove absolute and ^1, break list, print register / ^ / xFFFF, registers, assembly, echo, help) on 14 programs (loop, leaving user space through a bare RET / a branch below the origin / a jump to xFFFF, branches, nested JSR/RET, recursive CALL/RETS, HALT in the middle, JSRR + self-branch, self-modifying with output, overwriting a placeholder HALT before reaching it, `.break` in the source with output, running off the end, ending in an exception, executing an unknown trap). Every transition runs history+`quit` and history+end-of-input (also in non-minimal mode: up to depth 3 in the quick tier, everywhere in the thorough tier) on the real debugger and compares how the run ends, the final registers/PC/CC/all memory and the program output with the same image run without a debugger; states deduplicated on the paused product digest. Plus every history up to depth 3 (quick: last level stride 6) through the real binary: exit status and stdout of `lace debug --minimal --command` vs `lace run --minimal`. Plus long executions through the real binary (5 scripts on a subroutine with 65 536 unpaired calls; thorough: 2 scripts on a program of 2^32 + 229 381 instructions), which drive the debugger's own counters past their widths. non-trivial = agreeing transitions / CLI histories",
         !stats.capped,
         &["program-ends-normally", "program-ends-in-error-exit", "program-prints", "cli-status-0", "cli-status-nonzero"],
         &["differential oracle: the real VM without debugger", "HALT's own banner is printed with println! and is compared through the CLI part only"],
